@@ -27,7 +27,7 @@ import traceback
 
 import numpy as np
 
-from mc.common import Collector, angle_diff, close, make_1d, make_2d, reshape_lead
+from mc.common import Collector, _space, angle_diff, close, make_1d, reshape_lead
 
 ID = "C03"
 LEVEL = "exploration"
@@ -35,8 +35,10 @@ RULE = (
     "1d: layout {(), (time), (time,latitude), flattened} x moment pattern {one lattice point at all frequencies; "
     "two lattice points alternating over the frequencies, all ordered pairs (quick: of the 17-point sub-lattice "
     "r in {0,.5,1} x 45 degrees; thorough: of the full 101-point lattice); a stride pattern with four different "
-    "points} x energy word {0,1,3}^4 x band (11 x 11 table + default). 2d: uniform grid N x start {0,7.5,350,-170} x "
-    "layout x base spectrum (impulse per bin, bimodal pair per separation, off-centre lobe per bin) x every "
+    "points} x energy word {0,1,3}^4 x band (11 x 11 table + default). 2d: uniform grid N x start {0,7.5,350,-170; plus "
+    "relabelled coordinates (theta+k*step)%360 kept unsorted, passing 360->0 in the interior} x layout (the four "
+    "layouts and 'time_T' = dims (time,direction,frequency); named restriction 'transposed_layout_quick': quick runs "
+    "time_T for N<=12 only) x base spectrum (impulse per bin, bimodal pair per separation, off-centre lobe per bin) x every "
     "rotation k in 0..N-1 x {original, mirror image} x 4 bands. Named restriction 'scalar_layout_subset': layout () "
     "runs 1d: the 101 single-point patterns with word (1,3,0,1) and all 81 words with one alternating pattern, on "
     "5 bands; 2d: two bases (one impulse base, one lobe base; N>=72: the lobe base) with every rotation and mirror "
@@ -48,7 +50,7 @@ RULE = (
     "mean_directional_spread(0.1,0.35), peak_direction(0.05,0.2+ulp), peak_directional_spread(default), "
     "mean_direction_per_frequency, mean_spread_per_frequency} + {multiply(full shape, inplace), multiply(per "
     "frequency (1d) / per direction (2d), inplace), fillna(1.0), spec['variance_density']=..., "
-    "spec.dataset['variance_density']=..., 1d only: spec['a1']=..., spec.dataset['b1']=...} is executed on a fresh "
+    "spec.dataset['variance_density']=..., spec.values[...] *= w (in-place write into the object's own buffer), 1d only: spec['a1']=..., spec.dataset['b1']=...} is executed on a fresh "
     "object holding six members (layout (): one); every read is checked against the definitions evaluated on the "
     "data the object holds at that moment, and after histories of length <= 2 all six reads are made once more with "
     "the bands swapped. Named restriction 'history_length3_quick': quick runs length 3 in the (time) layout only. "
@@ -70,13 +72,47 @@ REQUIRED_CATEGORIES = [
     "rotation_direction_pairs", "rotation_invariant_pairs", "mirror_direction_pairs", "mirror_invariant_pairs",
     "layout_scalar", "layout_time", "layout_time_lat", "layout_flat", "range_checked",
     "history_executed", "history_read_then_mutate", "history_mutation_steps", "history_reads_checked",
-    "history_direction_compared",
+    "history_direction_compared", "grid_relabelled_coordinate", "layout_time_T",
 ]
 
 F = np.array([0.05, 0.1, 0.2, 0.35])
 NF = 4
 LAYOUTS = ("scalar", "time", "time_lat", "flat")
-LEAD_NAMES = {"scalar": (), "time": ("time",), "time_lat": ("time", "latitude"), "flat": ("linear_index",)}
+# "time_T" (2d only): leading dimension time, spectral dimensions stored as (direction, frequency)
+LEAD_NAMES = {"scalar": (), "time": ("time",), "time_lat": ("time", "latitude"), "flat": ("linear_index",),
+              "time_T": ("time",)}
+
+
+class ShapeMismatch(Exception):
+    """a library result does not have one entry per member; reported as a violation, never a harness error."""
+
+    def __init__(self, check, what):
+        super().__init__(what)
+        self.check, self.what = check, what
+
+
+def fit(v, shape, check, what):
+    v = np.asarray(v)
+    if v.size != int(np.prod(shape)):
+        raise ShapeMismatch(check, f"{what}: shape {v.shape}, expected {tuple(shape)} (one entry per member)")
+    return v.reshape(shape)
+
+
+def make_2d(f, d, E, depth=np.inf, flat=False, transposed=False):
+    """as mc.common.make_2d; the spectral dimensions can be stored as (direction, frequency)."""
+    from ocean_science_utilities.wavespectra.spectrum import create_2d_spectrum
+
+    E = np.asarray(E, dtype=float)
+    lead = E.shape[:-2]
+    sp, dims = _space(lead)
+    dep = np.broadcast_to(np.asarray(depth, dtype=float), lead).copy() if lead else float(depth)
+    sdims = ("frequency", "direction")
+    if transposed:
+        E = np.ascontiguousarray(np.swapaxes(E, -1, -2))
+        sdims = ("direction", "frequency")
+    s = create_2d_spectrum(np.asarray(f, dtype=float), np.asarray(d, dtype=float), E, sp["time"], sp["latitude"],
+                           sp["longitude"], dims=dims + sdims, depth=dep)
+    return s.flatten() if flat else s
 SPREAD_MAX = 81.03
 TOL_M = 1e-12        # absolute tolerance of a (band averaged) moment: 4..144 terms, |term| <= 1
 TOL_D = 4e-12        # |r cos D - A|: error of A plus error of r
@@ -98,8 +134,8 @@ HISTORY_READS = {
     "mean_spread_per_frequency": ("mean_spread_per_frequency", "prop", "prop"),
 }
 HISTORY_MUTATORS = {
-    "1d": ("mul_full", "mul_axis", "fillna", "setitem", "dataset_assign", "set_a1", "set_b1"),
-    "2d": ("mul_full", "mul_axis", "fillna", "setitem", "dataset_assign"),
+    "1d": ("mul_full", "mul_axis", "fillna", "setitem", "dataset_assign", "values_inplace", "set_a1", "set_b1"),
+    "2d": ("mul_full", "mul_axis", "fillna", "setitem", "dataset_assign", "values_inplace"),
 }
 
 
@@ -177,6 +213,12 @@ def grids2d(tier):
     for n in (8, 12, 36) + ((72, 144) if tier == "thorough" else ()):
         for sname, start in (("0", 0.0), ("7.5", 7.5), ("350", 350.0), ("-170", -170.0)):
             out.append({"name": f"uni{n}@{sname}", "n": n, "theta": [start + j * 360.0 / n for j in range(n)]})
+    # relabelled coordinates: the rotation done on the coordinate, (theta + k*step) % 360 WITHOUT re-sorting, so that
+    # the coordinate passes 360 -> 0 in the interior of the array
+    for n, sname, start in ((8, "350w", 350.0), (12, "127.5w", 127.5)) + (
+            ((36, "350w", 350.0), (72, "127.5w", 127.5)) if tier == "thorough" else ()):
+        out.append({"name": f"uni{n}@{sname}", "n": n, "theta": [(start + j * 360.0 / n) % 360.0 for j in range(n)],
+                    "relabelled": True})
     return out
 
 
@@ -223,7 +265,9 @@ def units(tier):
             us.append({"name": f"1d:{layout}:{ch}", "kind": "1d", "layout": layout, "chunk": ch, "nchunk": nchunk,
                        "cost": npat // nchunk})
     for g in grids2d(tier):
-        for layout in LAYOUTS:
+        # named restriction 'transposed_layout_quick': quick runs the (time, direction, frequency) storage order
+        # on the 8- and 12-bin grids only
+        for layout in LAYOUTS + (("time_T",) if (tier == "thorough" or g["n"] <= 12) else ()):
             n = g["n"]
             cost = 6 * n * n * n / 20 if layout != "scalar" else 40 * n
             us.append({"name": f"2d:{g['name']}:{layout}", "kind": "2d", "grid": g["name"], "layout": layout,
@@ -467,8 +511,8 @@ def run_1d(unit):
         lab_sl = lambda i, _o=sl.start: labels(_o + i)  # noqa: E731
         try:
             s = build(sl)
-            Df = _vals(s.mean_direction_per_frequency).reshape(k, NF)
-            Sf = _vals(s.mean_spread_per_frequency).reshape(k, NF)
+            Df = fit(_vals(s.mean_direction_per_frequency), (k, NF), "shape", "mean_direction_per_frequency")
+            Sf = fit(_vals(s.mean_spread_per_frequency), (k, NF), "shape", "mean_spread_per_frequency")
             check_per_frequency(c, rep, Df, Sf, a1[sl], b1[sl], valid[sl], lab_sl)
             for band in bands:
                 mask = band_mask(band)
@@ -492,6 +536,8 @@ def run_1d(unit):
                 for nm, q in (("A1", a1[sl]), ("B1", b1[sl]), ("A2", a2[sl]), ("B2", b2[sl])):
                     ref[nm] = trapz_band(q * e, mask) / den
                 check_band_quantities(c, rep, lib, ref, bkey, lab_sl, count_nontrivial=(layout == "time"))
+        except ShapeMismatch as exc:
+            rep(exc.check, exc.what, member=lab_sl(0))
         except Exception as exc:
             if not _lib_raised(exc):
                 raise
@@ -530,9 +576,11 @@ def run_2d(unit):
     theta = list(g["theta"])
     N = g["n"]
     step = 360.0 / N
-    theta_m = [-t for t in reversed(theta)]          # mirror image: coordinate negated and re-sorted
+    order = sorted(range(N), key=lambda j: -theta[j])  # mirror image: coordinate negated and re-sorted
+    theta_m = [-theta[j] for j in order]
     rep = Reporter(c, {"part": "2d", "grid": g["name"], "layout": layout})
     c.cat("layout_" + layout)
+    c.cat("grid_relabelled_coordinate", int(bool(g.get("relabelled"))))
     bases = bases2d(theta)
     if layout == "scalar":
         bases = [b for b in bases if b[0] in ((("imp", 1), ("lobe", 0)) if N < 72 else (("lobe", 0),))]
@@ -549,7 +597,7 @@ def run_2d(unit):
         # members: (base, k) -> E[..., j] = base[..., j-k]
         Erot = np.stack([np.stack([np.roll(Eb, k, axis=-1) for k in range(N)]) for _, Eb in chunk])  # (nb,N,NF,N)
         Erot = Erot.reshape(nb * N, NF, N)
-        Emir = Erot[:, :, ::-1]
+        Emir = Erot[:, :, order]
         n = nb * N
         labels = lambda i, mirror=False: [list(chunk[i // N][0]), int(i % N), bool(mirror)]  # noqa: E731
         results = {}
@@ -562,16 +610,23 @@ def run_2d(unit):
                 try:
                     if layout == "scalar":
                         s = make_2d(F, np.array(th), E[sl][0])
+                    elif layout == "time_T":
+                        s = make_2d(F, np.array(th), np.ascontiguousarray(E[sl]), transposed=True)
                     else:
                         s = make_2d(F, np.array(th), reshape_lead(np.ascontiguousarray(E[sl]), layout, (NF, N)),
                                     flat=(layout == "flat"))
-                    part = {"Df": _vals(s.mean_direction_per_frequency).reshape(k, NF),
-                            "Sf": _vals(s.mean_spread_per_frequency).reshape(k, NF)}
+                    part = {"Df": fit(_vals(s.mean_direction_per_frequency), (k, NF), "shape",
+                                      "mean_direction_per_frequency"),
+                            "Sf": fit(_vals(s.mean_spread_per_frequency), (k, NF), "shape",
+                                      "mean_spread_per_frequency")}
                     for bi, band in enumerate(bands):
                         bkey = "default" if band is None else [float(band[0]), float(band[1])]
                         for fn in BAND_FUNCS + INVARIANTS:
                             v = call_band(s, fn, band, k, lead_names, rep, bkey)
                             part[(fn, bi)] = v if v is not None else np.full(k, np.nan)
+                except ShapeMismatch as exc:
+                    rep(exc.check, exc.what, member=lab(sl.start))
+                    part = None
                 except Exception as exc:
                     if not _lib_raised(exc):
                         raise
@@ -751,13 +806,14 @@ def history_members_2d(theta):
 def history_reference(part, s, theta, nm):
     """(e, a1, b1, valid) (nm, NF) from the data the object holds NOW.  No library computation."""
     if part == "1d":
-        e = np.array(_vals(s.dataset["variance_density"]), dtype=float).reshape(nm, NF)
-        a1 = np.array(_vals(s.dataset["a1"]), dtype=float).reshape(nm, NF)
-        b1 = np.array(_vals(s.dataset["b1"]), dtype=float).reshape(nm, NF)
+        e = fit(np.array(_vals(s.dataset["variance_density"]), dtype=float), (nm, NF), "history shape", "variance_density")
+        a1 = fit(np.array(_vals(s.dataset["a1"]), dtype=float), (nm, NF), "history shape", "a1")
+        b1 = fit(np.array(_vals(s.dataset["b1"]), dtype=float), (nm, NF), "history shape", "b1")
         with np.errstate(invalid="ignore"):
             valid = np.isfinite(a1) & np.isfinite(b1) & (a1 ** 2 + b1 ** 2 <= 1 + 1e-12)
         return e, a1, b1, valid
-    cur = np.array(_vals(s.dataset["variance_density"]), dtype=float).reshape(nm, NF, len(theta))
+    cur = fit(np.array(_vals(s.dataset["variance_density"]), dtype=float), (nm, NF, len(theta)), "history shape",
+              "variance_density")
     e, a1, b1, _, _ = ref_2d(theta, np.where(np.isnan(cur), 0.0, cur))
     valid = e > 0
     return e, np.where(valid, a1, 0.0), np.where(valid, b1, 0.0), valid
@@ -879,6 +935,8 @@ def run_history(unit):
     for hist in hists:
         try:
             one_history(c, rep, part, layout, theta, {k: v[nsel] for k, v in data.items()}, hist)
+        except ShapeMismatch as exc:
+            rep("history " + exc.check, f"{exc.what} in history {hist}", history=hist)
         except Exception as exc:
             if not _lib_raised(exc):
                 raise
@@ -953,6 +1011,9 @@ def one_history(c, rep, part, layout, theta, data, hist):
             s["variance_density"] = da.copy(data=2.0 * _vals(da)[..., ::-1] + 0.25)
         elif op == "dataset_assign":
             s.dataset["variance_density"] = 0.5 * s.dataset["variance_density"].roll({axis_name: 1}, roll_coords=False)
+        elif op == "values_inplace":
+            buf = s.values            # the object's own buffer, edited in place (no new backing array)
+            buf *= 1.0 + (np.arange(naxis) % 2) * 1.5
         elif op == "set_a1":
             da = s.dataset["a1"]
             s["a1"] = da.copy(data=-0.5 * _vals(da))
